@@ -48,7 +48,9 @@ def rule_r1(ctx):
     nonempty = []
     for c in comp:
         gs = guards_of(g, c)
-        if any(isinstance(t, ast.Call) and isinstance(t.func, ast.Attribute) and t.func.attr == "startswith" and pol for (t, pol) in gs):
+        from .common import startswith_fact
+        if any(isinstance(t, ast.Call) and isinstance(t.func, ast.Attribute) and t.func.attr == "startswith" and pol for (t, pol) in gs) \
+                or any(startswith_fact(t, pol, lambda x: True, b"\r\n") is True for (t, pol) in gs):
             continue  # the "no trailer" exit
         nonempty.append(c)
     if not nonempty:
@@ -311,6 +313,18 @@ def rule_r6(ctx):
     pops = [(n, c) for n, c in find_calls(g, lambda c: dotted(c.func) in ("headers.pop",) and c.args and isinstance(c.args[0], ast.Constant) and c.args[0].value == "CONTENT_LENGTH")]
     pops = [(n, c) for (n, c) in pops if store and (g.dominates(store[0], n))]
     if not pops:
+        # the same removal spelled `if "CONTENT_LENGTH" in headers: del headers["CONTENT_LENGTH"]; <close verdict>`
+        dels = [n for n in g.nodes if n.kind == "stmt" and isinstance(n.ast, ast.Delete) and any(isinstance(t, ast.Subscript) and dotted(t.value) == "headers" and isinstance(t.slice, ast.Constant) and t.slice.value == "CONTENT_LENGTH" for t in n.ast.targets)
+                and store and g.dominates(store[0], n)]
+        for dn in dels:
+            member = [b for (t, pol, b) in g.guards(dn) if pol and isinstance(t, ast.Compare) and isinstance(t.ops[0], ast.In) and isinstance(t.left, ast.Constant) and t.left.value == "CONTENT_LENGTH" and dotted(t.comparators[0]) == "headers"]
+            cc2 = [m for m in g.nodes if m.kind == "stmt" and isinstance(m.ast, ast.Assign) and any(dotted(t) == "self.connection_close" for t in m.ast.targets) and isinstance(m.ast.value, ast.Constant) and m.ast.value.value is True
+                   and member and g.dominates(member[0], m)]
+            # every path from "the field is there" to the end of the branch removes it and sets the verdict
+            if member and cc2 and g.path(member[0], g.exit, avoid=[dn], follow_exc=False) is None and g.path(member[0], g.exit, avoid=cc2, follow_exc=False) is None:
+                ctx.r.ok(rid, "Content-Length deleted on the chunked path and the close verdict set whenever it was there", f.loc(dn.ast))
+                return
+    if not pops:
         ctx.r.violation(rid, key_of(f, None, "cl-kept-with-te"), "with Transfer-Encoding: chunked a Content-Length stays in the header map (the application sees a length that does not frame the body)", f.loc())
         return
     ctx.r.ok(rid, "Content-Length popped on the chunked path", f.loc(pops[0][0].ast))
@@ -377,8 +391,7 @@ def rule_r7(ctx, rid="C01.R7"):
         ctx.r.violation(rid, key_of(f, None, "verdict-ineffective"), "connection_close is read but does not force closing before the version ladder", f.loc(reads[0].ast))
 
 
-def rule_r8(ctx):
-    rid = "C01.R8"
+def rule_r8(ctx, rid="C01.R8"):
     ctx.r.rule(rid, "Transfer-Encoding is examined on every protocol-version path: outside HTTP/1.1 its presence sets the close verdict or refuses")
     f, g = _parse_header(ctx)
     te_nodes = []
@@ -390,6 +403,7 @@ def rule_r8(ctx):
     if not te_nodes:
         ctx.r.violation(rid, key_of(f, None, "te-ignored"), "parse_header never looks at the Transfer-Encoding field: every transfer coding is silently ignored", f.loc())
         return
+    not_all = None
     only11 = [n for n in te_nodes if any(pol and isinstance(t, ast.Compare) and norm(t).replace('"', "'") == "version == '1.1'" for (t, pol) in guards_of(g, n))]
     other = [n for n in te_nodes if n not in only11]
     ok = False
@@ -404,7 +418,23 @@ def rule_r8(ctx):
             if eff:
                 # the test must be reachable for non-1.1 versions: not dominated by version == 1.1 True
                 ok = True
-    if ok:
+                # ... for EVERY version other than 1.1 (the request-line grammar admits any DIGIT.DIGIT, and no version
+                # at all): the version tests that guard the effect are evaluated for 1.0, 0.9, 2.0, 1.2 and ''
+                for m in eff:
+                    for ver in ("1.0", "0.9", "2.0", "1.2", ""):
+                        for (t, pol) in guards_of(g, m):
+                            if isinstance(t, ast.Compare) and len(t.ops) == 1 and isinstance(t.ops[0], (ast.Eq, ast.In)) and dotted(t.left) in ("version", "self.version"):
+                                try:
+                                    cv = ctx.p.fold(t.comparators[0], f.module)
+                                except Exception:
+                                    continue
+                                val = (ver == cv) if isinstance(t.ops[0], ast.Eq) else (ver in cv)
+                                if val != pol and not_all is None:
+                                    not_all = (ver, norm(t), pol)
+    if ok and not_all is not None:
+        ctx.r.violation(rid, key_of(f, None, "te-not-every-version"), "the close verdict for a Transfer-Encoding outside HTTP/1.1 is only taken under `%s%s`: a request line with version %r (accepted, treated as 1.0 by the response side) keeps the connection open and the bytes a TE-aware peer takes for the body are executed as the next request"
+                        % ("" if not_all[2] else "not ", not_all[1], not_all[0]), f.loc(other[0].ast))
+    elif ok:
         ctx.r.ok(rid, "a Transfer-Encoding outside HTTP/1.1 sets the close verdict / is refused", f.loc(other[0].ast))
     else:
         ctx.r.violation(rid, key_of(f, None, "te-only-1.1"),
